@@ -10,6 +10,7 @@ from c01run import *
 
 P = "Cppcms.C02.Props."
 OBLIGATIONS = [
+    (P + "protocol_callbacks_use_nothrow_overloads", "every booster::aio socket operation that can fail with a system error in http_api.cpp / scgi_api.cpp / fastcgi_api.cpp / cgi_acceptor.h (table regenerated) outside constructors uses the overload taking error_code&, and endpoint lookups / byte counts are tested before use (D17, seeded C02-7); the accept path's setsockopt calls are listed as the one exception"),
     (P + "handler_exactly_once", "exit discipline regenerated from the source: after h(...) / starting the next async operation every protocol callback returns"),
     (P + "no_crash_scgi", "SCGI: for all byte streams and segmentations no out-of-range index, no negative/huge resize, no strlen past the buffer"),
     (P + "no_crash_fcgi", "FastCGI: likewise (cache never read into when full, front() only on non-empty vectors, unknown-role body large enough, negative CONTENT_LENGTH never reaches resize); model recursion budgets suffice"),
@@ -69,6 +70,17 @@ def gen_cases(c, scale):
         lone = fcgi_begin(1, 1, 0, 0) + fcgi_rec(FCGI_PARAMS, 1, fcgi_pairs([(b"CONTENT_LENGTH", b"65535"), (b"SCRIPT_NAME", b"/s")])) + fcgi_rec(FCGI_PARAMS, 1, b"")
         lone += fcgi_rec(FCGI_STDIN, 1, b"x" * 65535, pad=0, plen=rng.choice([1, 36, 255])) + rand_bytes(rng, rng.choice([0, 7, 300]), bytes(range(256)))
         cases.append(Case("fastcgi", "hc", segmentations(rng, lone, 1)[-1], tag="fullsize-record-lie"))
+    # a complete HTTP request with a large header section, then a reset of the connection 0..400 us after the server took the
+    # last byte (getpeername fails with ENOTCONN while the headers are still being parsed: D17, seeded C02-7); repeated with a
+    # sweep of delays, header sizes 2..15 KiB and one or two segments.  An exception out of service::run() is hard evidence.
+    for i in range(60 * min(scale, 4)):
+        r = gen_absreq(rng, bighdr=True)
+        r.body = b""; r.post = None; r.ctype = None; r.keep = False
+        enc, q, ck = encode_all(r, rng)
+        d = enc["http"]
+        delay = [0, 0, 5, 10, 20, 35, 50, 75, 100, 150, 200, 300, 400][i % 13]
+        segs = [d] if i % 3 else [d[:len(d) // 2], d[len(d) // 2:]]
+        cases.append(Case("http", f"rst:{delay}", segs, tag="reset-after-send"))
     # kept-alive connections: first request with one 1025..2040 byte variable, then ordinary / mutated requests
     for i in range(10 * scale):
         api = rng.choice(["http", "fastcgi"])
